@@ -10,6 +10,21 @@ import (
 // If the system-specific or Go-specific error cannot be mapped to anything, it
 // will be logged and EIO will be returned.
 func ExtractErrno(err error) Errno {
+	// An errno found in the error chain is the precise answer. It has to be
+	// looked for first: the os.Err* sentinels below are only coarse classes
+	// of errnos -- syscall.EPERM and syscall.EACCES both match
+	// os.ErrPermission, syscall.ENOTEMPTY and syscall.EEXIST both match
+	// os.ErrExist -- so testing them first turns EPERM into EACCES and
+	// ENOTEMPTY into EEXIST.
+	var errno Errno
+	if errors.As(err, &errno) {
+		return errno
+	}
+
+	if e := sysErrno(err); e != 0 {
+		return e
+	}
+
 	for _, pair := range []struct {
 		error
 		Errno
@@ -22,15 +37,6 @@ func ExtractErrno(err error) Errno {
 		if errors.Is(err, pair.error) {
 			return pair.Errno
 		}
-	}
-
-	var errno Errno
-	if errors.As(err, &errno) {
-		return errno
-	}
-
-	if e := sysErrno(err); e != 0 {
-		return e
 	}
 
 	// Default case.
